@@ -162,10 +162,14 @@ def _subs(x):
 def run_orderer(roots):
     old = signal.signal(signal.SIGALRM, _alarm)
     signal.alarm(5)
+    got = []
     try:
-        return {"r": "ok", "order": [c.__name__ for c in orderer(*roots)]}
+        # stepped one class at a time, the way a consumer that writes declarations as they arrive sees it
+        for c in orderer(*roots):
+            got.append(c.__name__)
+        return {"r": "ok", "order": got}
     except SchemaParseError:
-        return {"r": "unresolvable"}
+        return {"r": "unresolvable", **({"yielded_before_error": got} if got else {})}
     except Timeout:
         return {"r": "timeout"}
     except RecursionError:
@@ -226,6 +230,8 @@ def check_graph(drv, n, edges, positions, root_ids, out, stats, rng):
     if cyclic:
         if real["r"] != "unresolvable":
             out.failures.append({"case": case, "what": f"cyclic dependencies but orderer returned {real}", "finding": None})
+        elif real.get("yielded_before_error"):
+            out.failures.append({"case": case, "what": f"cyclic dependencies: a partial order {real['yielded_before_error']} was yielded before the schema-parse error", "finding": None})
         return
     if real["r"] != "ok":
         out.failures.append({"case": case, "what": "acyclic graph refused as unresolvable", "finding": None})
